@@ -675,12 +675,12 @@ EVIDENCE = {
     "rule": (
         "Seeded call histories of 1-14 (thorough: 30) operations over a swarm-style random subset of the eleven QC test functions: "
         "fresh calls (n = 0,1,2,3,...,24; finite dyadic values, magnitudes from 1e-300 to 1e300, readings a hair away from a bound / NaN / "
-        "None / masked elements; list, tuple, int list, float64, float32, read-only and masked-array carriers, masked arrays holding plain "
+        "None / masked elements; list, tuple, int list, int64, int32, float64, float32, read-only and masked-array carriers, masked arrays holding plain "
         "NaN; datetime64[ns|s] or epoch-second times; positions with stationary stretches; admissible parameter sets as lists / tuples / "
         "numpy scalars incl. both spike methods, both attenuated check types with/without test_period and min_obs xor min_period, "
         "climatology members of every period kind with date spans in mixed spellings, given as dict lists or as one ClimatologyConfig "
         "object), repeats on the same argument objects, new or near-duplicate data with the parameter objects of an earlier call, in-place "
-        "mutation of the caller's own buffers between two calls, a rejected ClimatologyConfig.add between calls. The history runs in one "
+        "mutation of the caller's own buffers between two calls, in-place edits of a list-of-dicts climatology between two calls, a rejected ClimatologyConfig.add between calls. The history runs in one "
         "forked child with the dirty allocator re-patterned per call; every call's reference runs in its own child forked from the pristine "
         "worker under another pattern. Non-trivial: history of at least two calls. Distinct: distinct (digest of all outputs, digest of "
         "the op/function sequence). "
@@ -690,7 +690,7 @@ EVIDENCE = {
     "assumptions": [
         "dtype of the returned flags is not asserted (the property names values, shape and mask only); empty outputs are vacuously in the alphabet",
         "dask carriers are excluded: np.array(dask_array) starts dask's own thread pool whose interleaving the simulator would not decide",
-        "masked elements only for tests that document missing-data handling; pressure_increasing_test gets NaN only",
+        "masked elements only for tests that document missing-data handling; pressure_increasing_test gets NaN only; integer-typed columns carry no missing marker at all",
         "global state of dependencies (warning filters, errstate) is not asserted",
         "the pandas numba rolling kernel is compiled once in the worker by a plain pandas call before any fork",
     ],
